@@ -157,8 +157,8 @@ PROPS = {
                    "every alteration that changes the signing root, the signature, the named validator, the agreed proposal payload, the claimed share or the admissibility of the duty is rejected before any subscriber runs.",
         level_note="Signing roots and domains come from specsign / fakebn; alterations of unsigned metadata assert nothing; pre-merge proposals are outside the signing flow; cryptographic negatives are statistical.",
         runs={
-            "quick": [dict(test="TestC10ValidatorAPI", checks=500, shards=4, shrinktime="10s"), dict(test="TestC10PeerPath", checks=700, shards=2, shrinktime="10s")],
-            "thorough": [dict(test="TestC10ValidatorAPI", checks=12000, shards=10, timeout=3000), dict(test="TestC10PeerPath", checks=20000, shards=6, timeout=3000)],
+            "quick": [dict(test="TestC10ValidatorAPI", checks=500, shards=3, shrinktime="10s"), dict(test="TestC10PeerPath", checks=700, shards=2, shrinktime="10s"), dict(test="TestC10Batches", checks=300, shards=3, shrinktime="10s")],
+            "thorough": [dict(test="TestC10ValidatorAPI", checks=12000, shards=7, timeout=3000), dict(test="TestC10PeerPath", checks=20000, shards=5, timeout=3000), dict(test="TestC10Batches", checks=8000, shards=4, timeout=3000)],
         },
     ),
     "C01": dict(
